@@ -6,7 +6,11 @@
 (* the specification does not explain are collected in rej (the batch is    *)
 (* always read to its end) and reported with the first clause that fails.   *)
 (*   V  : one 64-bit value x through Append, Len, AppendWithLen(w...), and   *)
-(*        Read over what Append produced (followed by extra tail bytes)      *)
+(*        Read over what Append produced (followed by extra tail bytes).     *)
+(*        Append/AppendWithLen are run on several destination slices, all    *)
+(*        holding `prefix` (fresh, exactly full, reused scratch buffers with *)
+(*        dirty spare capacity): whatever lies behind the destination, the   *)
+(*        result is prefix ++ reference encoding (appends[], awl[].dst).     *)
 (*   R  : Read over arbitrary bytes (non-minimal encodings, truncations)     *)
 (*   TP : a parameter list through Marshal and through the                   *)
 (*        quic_transport_parameters extension writer                         *)
@@ -23,12 +27,14 @@ WhyV(e) ==
   LET x == e.x IN
   IF ~IsB8(x) THEN "malformed-event"
   ELSE IF Refused(x) THEN
-       (IF ~P(e.append) THEN "append-not-refused"
+       (IF ~P(e.append) \/ \E k \in DOMAIN e.appends : ~P(e.appends[k]) THEN "append-not-refused"
         ELSE IF ~P(e.len) THEN "len-not-refused"
         ELSE IF \E k \in DOMAIN e.awl : ~P(e.awl[k]) THEN "appendwithlen-not-refused"
         ELSE "")
   ELSE IF P(e.append) THEN "append-panic"
   ELSE IF e.append.out # e.prefix \o VarintEnc(x) THEN "append-bytes"
+  ELSE IF \E k \in DOMAIN e.appends : P(e.appends[k]) THEN "append-panic-dst"
+  ELSE IF \E k \in DOMAIN e.appends : e.appends[k].out # e.prefix \o VarintEnc(x) THEN "append-bytes-dst"
   ELSE IF P(e.len) THEN "len-panic"
   ELSE IF e.len.n # MinLen(x) THEN "len-value"
   ELSE IF \E k \in DOMAIN e.awl : AWLRefused(x, e.awl[k].w) /\ ~P(e.awl[k]) THEN "appendwithlen-not-refused"
